@@ -142,6 +142,48 @@ def shape_key(names, a, b):
     return "sanitised-collision"
 
 
+def check_python_phases(phases, rec):
+    """One manager, several phase functions: the generator calls clear_locals() between them.  Within each
+    phase function the identifiers must be legal, stable and pairwise distinct (persistent ones across all)."""
+    import unicodedata
+    from dagrt.codegen.python import PythonNameManager
+    nm = PythonNameManager()
+    wit = {"target": "python", "phases": phases}
+    persistent = {}
+    for pi, lookups in enumerate(phases):
+        if pi:
+            nm.clear_locals()
+        seen = dict(persistent)
+        for kind, n in lookups:
+            try:
+                ident = nm.name_function(n) if kind == "func" else nm[n]
+            except Exception as ex:
+                rec.violation(f"python-lookup-raises-{type(ex).__name__}", f"lookup of {n!r}: {ex}", wit)
+                return
+            rec.count("lookups_python_multiphase")
+            key = (kind, n)
+            if key in seen and seen[key] != ident:
+                rec.violation("python-unstable-identifier",
+                              f"phase {pi}: {n!r} mapped to {seen[key]!r}, later to {ident!r}", wit)
+                return
+            seen[key] = ident
+            if kind == "func" or is_state(n):
+                persistent[key] = ident
+            if not py_legal(ident):
+                rec.violation("python-illegal-identifier-in-later-phase", f"{n!r} -> {ident!r}", wit)
+                return
+        by_ident = {}
+        for (kind, n), ident in seen.items():
+            ident = unicodedata.normalize("NFKC", ident)
+            if ident in by_ident and by_ident[ident] != (kind, n):
+                o = by_ident[ident]
+                rec.violation("python-collision-within-a-later-phase-function",
+                              f"phase function {pi}: {n!r} and {o[1]!r} both map to {ident!r}", wit)
+                return
+            by_ident[ident] = (kind, n)
+    rec.count("python_multiphase_sequences")
+
+
 def check_python(lookups, rec, do_compile):
     """lookups: list of ("var"|"func", name)."""
     from dagrt.codegen.python import PythonNameManager
@@ -394,6 +436,13 @@ def run_shard(shard, rec):
                 do_compile = (i % shard["compile_every"] == 0)
                 check_python([x for x in lk if x[0] in ("var", "func")], rec, do_compile)
                 check_fortran(lk, rec, do_compile)
+                # the same names spread over several phase functions, each with its own subset and order
+                pl = [x for x in lk if x[0] in ("var", "func")]
+                phases = []
+                for _ in range(rng.choice([2, 2, 3])):
+                    ph = rng.sample(pl, rng.randint(1, len(pl))) if pl else []
+                    phases.append(ph + rng.sample(ph, min(len(ph), 2)))
+                check_python_phases(phases, rec)
                 for mech, why in inv.failures:
                     rec.violation(mech, why, {"lookups": lk})
                 inv.failures.clear()
@@ -415,6 +464,10 @@ def replay(witness, rec):
     inv = Inv(rec)
     inv.attach()
     try:
+        if "phases" in witness:
+            check_python_phases([[tuple(x) for x in ph] for ph in witness["phases"]], rec)
+            rec.case(witness)
+            return
         lk = [tuple(x) for x in witness["lookups"]]
         if witness.get("target") != "fortran":
             check_python([x for x in lk if x[0] in ("var", "func")], rec, True)
